@@ -599,6 +599,74 @@ pub fn boundary_packets() -> Vec<Vec<u8>> {
             }
         }
     }
+    // pointers into the middle of a label whose bytes happen to read as labels themselves: a question label holding
+    // a printable byte v (0x20, 0x30, 0x3f) followed by exactly v more bytes; owners and data names that are bare
+    // pointers to that byte, to the label start and to the following label; the question name ends in the root or in
+    // a pointer into the header (id 0x0161 and a zero flag word spell "a.")
+    for v in [0x20usize, 0x30, 0x3f] {
+        for header_tail in [false, true] {
+            for prefix in [1usize, 3] {
+                if prefix + 1 + v > 63 {
+                    continue;
+                }
+                let mut p = if header_tail { vec![0x01, 0x61, 0x00, 0x00, 0, 1, 0, 0, 0, 0, 0, 0] } else { header(26, 0x8180, 1, 0, 0, 0) };
+                let mut q = vec![(prefix + 1 + v) as u8];
+                q.extend(vec![b'p'; prefix]);
+                q.push(v as u8);
+                q.extend(vec![b'b'; v]);
+                q.extend(&[2, b'e', b'x']);
+                if header_tail {
+                    q.extend(&[0xc0, 0x00]);
+                } else {
+                    q.push(0);
+                }
+                let inner = 12 + 1 + prefix;          // offset of the byte v
+                let next_label = 12 + 1 + prefix + 1 + v;
+                p.extend(&q);
+                p.extend(&[0, 1, 0, 1]);
+                let mut count = 0u16;
+                for target in [inner, 12, next_label] {
+                    rr(&mut p, &ptr(target), 1, 1, &[1, 1, 1, 1]);
+                    rr(&mut p, &[1, b'w', 0xc0, target as u8], 2, 2, &ptr(target));
+                    rr(&mut p, &ptr(target), 15, 3, &[0, 9, 0xc0, target as u8]);
+                    count += 3;
+                }
+                if header_tail {
+                    p[10] = (count >> 8) as u8;
+                    p[11] = count as u8;
+                } else {
+                    p[6] = (count >> 8) as u8;
+                    p[7] = count as u8;
+                }
+                out.push(p);
+            }
+        }
+    }
+    // the same trick one step further: the bytes read from the middle of the label run over the end of the label and
+    // take the first byte of the question's closing pointer as their last character; the pointer's second byte (0x00)
+    // then reads as the root
+    for v in [0x20usize, 0x30, 0x3f] {
+        for prefix in [1usize, 3] {
+            if prefix + v > 63 {
+                continue;
+            }
+            let mut p = vec![0x01, 0x61, 0x00, 0x00, 0, 1, 0, 0, 0, 0, 0, 0];
+            let mut q = vec![(prefix + v) as u8];
+            q.extend(vec![b'p'; prefix]);
+            q.push(v as u8);
+            q.extend(vec![b'b'; v - 1]);
+            q.extend(&[0xc0, 0x00]);
+            let inner = 12 + 1 + prefix;
+            p.extend(&q);
+            p.extend(&[0, 1, 0, 1]);
+            rr(&mut p, &ptr(inner), 1, 1, &[1, 1, 1, 1]);
+            rr(&mut p, &[1, b'w', 0xc0, inner as u8], 2, 2, &ptr(inner));
+            rr(&mut p, &ptr(12), 1, 3, &[2, 2, 2, 2]);
+            p[10] = 0;
+            p[11] = 3;
+            out.push(p);
+        }
+    }
     // a name made of labels filling exactly T bytes (T = 240..258), then the first byte of a pointer as the last byte
     // of the buffer, a complete pointer, and a pointer followed by the question's fixed part
     for total in 240usize..=258 {
